@@ -410,7 +410,6 @@ func c07Segmentation(rng *lab.Rand, n int) (string, []int) {
 	}
 }
 
-
 // c07Deliver writes the stream in the given segmentation and counts the replies the proxy sends back.
 func c07Deliver(addr, proto string, stream []byte, cuts []int, nreq int, rng *lab.Rand) (replies int, why string) {
 	cn, err := net.DialTimeout("tcp", addr, 2*time.Second)
